@@ -65,6 +65,16 @@ impl<'tcx> Cx<'tcx> {
         } else {
             String::new()
         };
+        let macs: Vec<String> = if exp {
+            sp.macro_backtrace()
+                .filter_map(|d| match d.kind {
+                    rustc_span::ExpnKind::Macro(_, name) => Some(name.to_string()),
+                    _ => None,
+                })
+                .collect()
+        } else {
+            Vec::new()
+        };
         let src = sp.source_callsite();
         let lo = sm.lookup_char_pos(src.lo());
         let hi = sm.lookup_char_pos(src.hi());
@@ -76,14 +86,15 @@ impl<'tcx> Cx<'tcx> {
             o => format!("{:?}", o),
         };
         format!(
-            "{{\"file\":{},\"line\":{},\"col\":{},\"hi_line\":{},\"hi_col\":{},\"exp\":{},\"mac\":{}}}",
+            "{{\"file\":{},\"line\":{},\"col\":{},\"hi_line\":{},\"hi_col\":{},\"exp\":{},\"mac\":{},\"macs\":{}}}",
             esc(&file),
             lo.line,
             lo.col.0,
             hi.line,
             hi.col.0,
             exp,
-            esc(&mac)
+            esc(&mac),
+            esc(&macs.join(">"))
         )
     }
 
